@@ -219,43 +219,61 @@ func checkC15(c *Ctx, r *Report) {
 		// registered after compared: within one iteration of the entries loop the endpoint store follows every report call
 		v3 := ""
 		var s3 []string
-		var outer *ast.RangeStmt
-		for _, l := range w.rangeLoops(fi, w.paramOfType(fi, "[]core/validators/paths.RouteEntry")) {
-			outer = l
-		}
-		hasGoto := containsNode(fi.Decl, func(n ast.Node) bool {
-			b, ok := n.(*ast.BranchStmt)
-			return ok && b.Tok == token.GOTO
-		})
-		if outer == nil || hasGoto {
-			v3 = "entries loop not found (or goto present)"
-		} else {
-			lastReport, firstStore := -1, -1
-			isReport := w.callPred(fi, append(append([]string{}, reports...), ac)...)
-			for i, st := range outer.Body.List {
-				if containsNode(st, isReport) {
-					lastReport = i
+		// the endpoint registration (a store into some trie node's `endpoint` map) and the report
+		// calls, wherever in FindConflicts or the new functions it uses they are written
+		var stores, reps []ssa.Instruction
+		isRep := nameIs(append(append([]string{}, reports...), ac)...)
+		allInstrs(fi.SSA, true, func(_ *ssa.Function, _ *ssa.BasicBlock, _ int, ins ssa.Instruction) {
+			switch x := ins.(type) {
+			case *ssa.MapUpdate:
+				if sliceOf(x.Map).hasFieldNamed("endpoint") {
+					stores = append(stores, ins)
+					s3 = append(s3, w.pos(ins.Pos()))
 				}
-				if firstStore < 0 && containsNode(st, func(n ast.Node) bool {
-					as, ok := n.(*ast.AssignStmt)
-					if !ok || len(as.Lhs) != 1 {
-						return false
-					}
-					ix, ok := as.Lhs[0].(*ast.IndexExpr)
-					if !ok {
-						return false
-					}
-					se, ok := ix.X.(*ast.SelectorExpr)
-					return ok && se.Sel.Name == "endpoint"
-				}) {
-					firstStore = i
-					s3 = append(s3, w.pos(st.Pos()))
+			case ssa.CallInstruction:
+				if isRep(calleeName(x)) {
+					reps = append(reps, ins)
 				}
 			}
-			if firstStore < 0 {
-				v3 = "the entry is never registered in the trie"
-			} else if lastReport > firstStore {
-				v3 = fmt.Sprintf("%s: an entry is registered before it was compared: it can be reported as conflicting with itself", w.pos(outer.Body.List[firstStore].Pos()))
+		})
+		hasGoto := false
+		for _, rf := range w.astRegion(fi) {
+			if containsNode(rf.Decl, func(n ast.Node) bool {
+				b, ok := n.(*ast.BranchStmt)
+				return ok && b.Tok == token.GOTO
+			}) {
+				hasGoto = true
+			}
+		}
+		switch {
+		case hasGoto:
+			v3 = "goto present: statement order says nothing"
+		case len(stores) == 0:
+			v3 = "the entry is never registered in the trie"
+		default:
+			// compared in the innermost function of the region in which both take effect at different places
+			for _, st := range stores {
+				for _, rp := range reps {
+					decided := false
+					for _, f := range w.regionFns(fi.SSA) {
+						hs, hr := w.hostCallsIn(f, st), w.hostCallsIn(f, rp)
+						if len(hs) == 0 || len(hr) == 0 {
+							continue
+						}
+						ps, pr := hs[0].Pos(), hr[0].Pos()
+						if ps == pr {
+							continue // both inside the same call of a further helper: look there
+						}
+						decided = true
+						if hs[0].Parent() == hr[0].Parent() && !instrDominates(hs[0], hr[0]) {
+							continue // alternative branches (register or report a duplicate), not a sequence
+						}
+						if ps < pr {
+							v3 = fmt.Sprintf("%s: an entry is registered before it was compared (%s): it can be reported as conflicting with itself", w.pos(st.Pos()), w.pos(rp.Pos()))
+						}
+					}
+					_ = decided
+				}
 			}
 		}
 		r.add("C15.a", "no-reorder", fc+":register-after-compare", "an entry is registered only after all comparisons of its iteration (two distinct entries per conflict)", []string{fc}, s3, v3)
